@@ -201,7 +201,7 @@ func (re *RuntimeEnvironment) CreateChannelForEachProcess(processes []*Process) 
 // Create new channel
 func (re *RuntimeEnvironment) CreateFreshChannel(ident string) Name {
 	// The channel ID is used for debugging
-	atomic.AddUint64(&re.debugChannelCounter, 1)
+	channelID := atomic.AddUint64(&re.debugChannelCounter, 1)
 
 	// Create new channel and assign a name to it
 	var mChan chan Message
@@ -226,7 +226,7 @@ func (re *RuntimeEnvironment) CreateFreshChannel(ident string) Name {
 	return Name{
 		Ident:          ident,
 		Channel:        mChan,
-		ChannelID:      re.debugChannelCounter,
+		ChannelID:      channelID,
 		ControlChannel: cmChan,
 		IsSelf:         false,
 	}
